@@ -626,6 +626,13 @@ fn eviction_config(a: &Algo) -> foyer::EvictionConfig {
             cmsketch_confidence: 0.9,
         }
         .into(),
+        Algo::LfuSketch { window, protected, eps } => foyer::LfuConfig {
+            window_capacity_ratio: window,
+            protected_capacity_ratio: protected,
+            cmsketch_eps: eps,
+            cmsketch_confidence: 0.9,
+        }
+        .into(),
     }
 }
 
